@@ -63,7 +63,7 @@ def run(out: common.Outcome, explore: int = 0) -> None:
     # ---- leg 1: program text
     leg1 = []
     for k in range(n1):
-        m = gen.rand_mapping(rng, otel=(k % 3 == 0), allow_root_array=(k % 6 == 0))
+        m = gen.next_mapping(rng, otel=(k % 3 == 0), allow_root_array=(k % 6 == 0))
         try:
             txt = field_mapping_to_jq_query(copy.deepcopy(m))
         except Exception as e:  # noqa
@@ -74,7 +74,7 @@ def run(out: common.Outcome, explore: int = 0) -> None:
     legA = []
     while len(legA) < n3:
         k = len(legA)
-        m = gen.rand_mapping(rng, otel=(k % 3 == 0), allow_root_array=(k % 6 == 0))
+        m = gen.next_mapping(rng, otel=(k % 3 == 0), allow_root_array=(k % 6 == 0))
         jm = field_spec_mapping_to_jq_field_spec_mapping(copy.deepcopy(m))
         doc = gen.rand_doc(rng, jm, perturb=rng.choice([0.0, 0.05, 0.15, 0.3]))
         try:
@@ -90,7 +90,7 @@ def run(out: common.Outcome, explore: int = 0) -> None:
     gen.FRIENDLY = True
     with common.Scratch("c13") as tmp:
         while len(legC) < nc:
-            m = gen.rand_mapping(rng, otel=True)
+            m = gen.next_mapping(rng, otel=True)
             jm = field_spec_mapping_to_jq_field_spec_mapping(copy.deepcopy(m))
             per_line = len(legC) % 2 == 1
             docs = [gen.rand_doc(rng, jm, perturb=rng.choice([0.0, 0.02, 0.05])) for _ in range(rng.randint(2, 4) if per_line else 1)]
